@@ -48,6 +48,8 @@ def mutants(prog):
         ("mat->quat trace", K, "rotation_matrix_to_quaternion", "qx = safe_zero_division(m21 - m12, sq)\n        qy = safe_zero_division(m02 - m20, sq)", "qx = safe_zero_division(m12 - m21, sq)\n        qy = safe_zero_division(m02 - m20, sq)", "T7.matrix-to-quat"),
         ("scales: squashing tied to requires_grad", "deepali.spatial.linear", "AnisotropicScaling.scales", "if self.has_parameters():", "if params.requires_grad:", "T8.accessors"),
         ("isotropic scales_: squashing tied to requires_grad", "deepali.spatial.linear", "IsotropicScaling.scales_", "if self.has_parameters():", "if self.data().requires_grad:", "T8.accessors"),
+        ("quaternion log: asin of the vector norm", K, "quaternion_exp_to_log", "torch.acos(torch.clamp(quaternion_scalar, min=-1.0, max=1.0))", "torch.asin(torch.clamp(norm_q, max=1.0))", "T7.quat-log-exp"),
+        ("quaternion exp: scalar part sine", K, "quaternion_log_to_exp", "quaternion_scalar: torch.Tensor = torch.cos(norm_q)", "quaternion_scalar: torch.Tensor = torch.sin(norm_q)", "T7.quat-log-exp"),
     ]
     for name, mod, fn, old, new, expect in specs:
         ov = source_sub(prog, mod, fn, old, new)
